@@ -86,6 +86,18 @@ def expected(cases, oracle):
             d, mt = a.split(" | ")
             out[k]["code"] = {"d": math.inf if d == "inf" else int(d),
                               "m": [[math.inf if t == "inf" else int(t) for t in row.split()] for row in mt.split(" ; ")]}
+    # the -1 marks of the end relaxation as written (RelaxedEnd.marked over the specification matrix, which the
+    # as-written matrix equals when there is no bound)
+    idx, lines = [], []
+    for k, c in enumerate(cases):
+        if c["site"] != "py.wps" or "err" in out[k] or not c.get("psi_neg") or _bounds(c)[0] is not None:
+            continue
+        idx.append(k)
+        lines.append(dtwgen.oracle_line("marks", c))
+    for k, a in zip(idx, oracle.query(lines)):
+        if isinstance(out[k].get("code"), dict) and "err" not in out[k]["code"]:
+            out[k]["code"]["marks"] = None if a.startswith("ERR") else sorted(
+                [int(x) for x in t.split(",")] for t in a.split())
     return out
 
 
@@ -303,6 +315,10 @@ def judge_as_written(case, code, g):
                 continue
             if float(x) != _transform(y, case):
                 return {"kind": "as-written-model-differs:cell", "cell": [i, j], "got": float(x), "model": _transform(y, case)}
+    if code.get("marks") is not None:
+        got = sorted([i, j] for i, row in enumerate(m) for j, x in enumerate(row) if float(x) == -1)
+        if got != code["marks"]:
+            return {"kind": "as-written-model-differs:marks", "got": got, "model": code["marks"]}
     return None
 
 
